@@ -202,6 +202,12 @@ class Built:
     pass
 
 
+def _hook(variant, point):
+    cb = (variant or {}).get('hook')
+    if cb is not None:
+        cb(point)
+
+
 def build(spec, rso_mod=None, variant=None):
     """Translate the spec into an ro.Model.  `variant` (dict) selects rewrites
     used by C15/C09; default spelling is chosen from spec['spell']."""
@@ -249,6 +255,7 @@ def build(spec, rso_mod=None, variant=None):
                 for j in range(sub.shape[1]):
                     if sub[i, j]:
                         y[i].adapt(z[j])
+    _hook(variant, 'declared')
     zfull = zs[0] if len(zs) == 1 else rso.concat(zs)
     B.zfull = zfull
 
@@ -324,6 +331,7 @@ def build(spec, rso_mod=None, variant=None):
         m.maxmin(obj, *sargs)
     B.obj = obj
 
+    _hook(variant, 'objective')
     # bounds on x and on the rules
     xM, yM = spec['xM'], spec['yM']
     B.user_constr = []
@@ -334,6 +342,7 @@ def build(spec, rso_mod=None, variant=None):
         m.st(y <= yM)
         m.st(y >= -yM)
     for row in spec['rows']:
+        _hook(variant, 'row')
         lhs = expr(row['e'])
         if row['sense'] == 'le':
             c = (lhs <= row['rhs'])
